@@ -1,6 +1,6 @@
 """C15 Bloom filter rules: write-through / dirty-flag typestate, read-only guard, stale-count reads, index agreement,
 compatibility dominance, bit-op counting, overload sibling agreement."""
-from astu import C, ctxt, gt_pair, eq_const, strip, strip_all, walk, walkp, txt, short, is_this_field, field_name, stmts_of, always_throws, functions_by
+from astu import C, ctxt, gt_pair, eq_const, reach, reach_txt, ctext, strip, strip_all, walk, walkp, txt, short, is_this_field, field_name, stmts_of, always_throws, functions_by
 from flow import Flow
 from vlib.core import ob
 
